@@ -104,14 +104,21 @@ def one_schedule(sched_mod, lp, policy, T: int, inputs, early, fail, reuse: str,
                 given = source() if (not finite or STATE.get("input_kind", 0) == 0) else (
                     range(inputs) if STATE["input_kind"] == 1 else list(range(inputs)))
                 pauses = STATE.get("pauses") or ()
-                for i, result in enumerate(pool.imap_unordered(func, given)):
-                    out.append(result)
-                    if early is not None and i + 1 >= early:
-                        break
-                    if i in pauses:
-                        # the consumer pauses (virtual time): workers run dry and wait; nothing may be lost
-                        sched.sleep(sched.me(), pauses[i])
-                if reuse == "same-context" and early is None and fail is None:
+                try:
+                    for i, result in enumerate(pool.imap_unordered(func, given)):
+                        out.append(result)
+                        if early is not None and i + 1 >= early:
+                            break
+                        if i in pauses:
+                            # the consumer pauses (virtual time): workers run dry and wait; nothing may be lost
+                            sched.sleep(sched.me(), pauses[i])
+                except FAILURES as exc:
+                    if reuse != "same-context":
+                        raise
+                    raised = str(exc)          # the caller handles the failure and goes on using the pool
+                if reuse == "same-context":
+                    if early is not None:
+                        pool.finish_and_reset()    # an abandoned iteration is ended explicitly before the next one
                     out2 = list(pool.imap_unordered(plain, range(T + 2)))
         except FAILURES as exc:
             raised = str(exc)
@@ -142,7 +149,7 @@ def one_schedule(sched_mod, lp, policy, T: int, inputs, early, fail, reuse: str,
         if fail is not None and finite and fail < inputs and early is None and raised is None \
                 and got == expected_all - Counter([fail * 2 + 1]):
             problems.append(("failure-swallowed", "pass ended normally without the failing input's result"))
-        if reuse == "after-exit" or (reuse == "same-context" and early is None and fail is None):
+        if reuse in ("after-exit", "same-context"):
             if Counter(out2) != Counter(x * 2 + 1 for x in range(T + 2)):
                 problems.append(("reuse-broken", f"second pass on the same pool returned {sorted(out2)}"))
         unfinished = [t["name"] for t in sched.threads.values() if t["name"] != "consumer" and t["state"] != "F"]
